@@ -26,6 +26,7 @@ MUTATORS = {'update', 'append', 'add', 'clear', 'pop', 'popitem', 'setdefault', 
             'symmetric_difference_update'}
 SHARED_NAMES = {'_EMPTY_LIST', '_EMPTY_SET', '_EMPTY_DICT'}
 SHARED_ATTRS = {'static_tags'}
+TAG_STACKS = {'tagss'}          # lists of tag dicts pushed by child matches (new_tagss() / self.tagss[-1])
 
 
 def run(ctx):
@@ -169,6 +170,8 @@ def check_shared(ctx, m):
                     norm(e.func.func.value) in ('_MATCH_FUNCS', '_LEAF_ASTS_FUNCS'):
                 return True
             return False
+        if isinstance(e, ast.Subscript) and not isinstance(e.slice, ast.Slice) and isinstance(e.value, ast.Name) and e.value.id in TAG_STACKS:
+            return True         # an element of a tag stack: children push dicts they got from match functions (possibly a pattern's static_tags)
         if isinstance(e, ast.IfExp):
             return expr_shared(e.body, local_shared) or expr_shared(e.orelse, local_shared)
         if isinstance(e, ast.BoolOp):
@@ -186,6 +189,10 @@ def check_shared(ctx, m):
             changed = False
             for n in walk_no_nested(fn):
                 tg, val = None, None
+                if isinstance(n, ast.For) and isinstance(n.target, ast.Name) and isinstance(n.iter, ast.Name) and n.iter.id in TAG_STACKS and \
+                        n.target.id not in ls:
+                    ls.add(n.target.id)      # iterating a tag stack hands out the dicts the children pushed
+                    changed = True
                 if isinstance(n, ast.Assign):
                     tg, val = n.targets, n.value
                 elif isinstance(n, ast.NamedExpr):
